@@ -27,7 +27,7 @@ pub struct Ev {
     pub k: K,
     /// address of the token vector of the design unit being searched (identity of the unit)
     pub unit: usize,
-    /// file of `pos` (With/Ref); u32::MAX for Decl
+    /// file of `pos` (With/Ref); Decl: file of the identifier token of a design unit, else u32::MAX
     pub file: u32,
     pub span: Span,
     /// raw entity id of the reference (Ref: target, Decl: declared entity)
@@ -158,6 +158,18 @@ impl<'a> Rec<'a> {
     }
     fn mk_decl(&mut self, ctx: &dyn TokenAccess, d: &FoundDeclaration<'_>) -> Ev {
         let (dk, endtok) = decl_info(&d.ast);
+        // design units: the file of the unit's own identifier token (a unit may consist of this event only)
+        let ident_tok = match &d.ast {
+            DeclarationItem::Entity(v) => Some(v.ident.tree.token),
+            DeclarationItem::Architecture(v) => Some(v.ident.tree.token),
+            DeclarationItem::Package(v) => Some(v.ident.tree.token),
+            DeclarationItem::PackageBody(v) => Some(v.ident.tree.token),
+            DeclarationItem::PackageInstance(v) => Some(v.ident.tree.token),
+            DeclarationItem::Configuration(v) => Some(v.ident.tree.token),
+            DeclarationItem::Context(v) => Some(v.ident.tree.token),
+            _ => None,
+        };
+        let unit_file = ident_tok.map(|t| self.files.id(ctx.get_pos(t).source.file_name())).unwrap_or(u32::MAX);
         let end = endtok.map(|t| {
             let p = ctx.get_pos(t);
             (self.files.id(p.source.file_name()), span_of(p))
@@ -165,7 +177,7 @@ impl<'a> Rec<'a> {
         Ev {
             k: K::Decl,
             unit: unit_of(ctx),
-            file: u32::MAX,
+            file: unit_file,
             span: (0, 0, 0, 0),
             ent: d.ent_id().map(|i| i.to_raw()),
             addr: d.reference as *const Reference as usize,
@@ -283,7 +295,7 @@ pub fn extract(p: &Project, files: &mut Files, want: &dyn Fn(&std::path::Path) -
     for e in &all {
         let f = match e.k {
             K::With | K::Ref => Some(e.file),
-            K::Decl => e.end.map(|x| x.0),
+            K::Decl => if e.file != u32::MAX { Some(e.file) } else { e.end.map(|x| x.0) },
         };
         if let Some(f) = f {
             match unit_file.get(&e.unit) {
